@@ -14,6 +14,10 @@ Model of `src/encode/pattern/parser.rs`, function by function, over `List Char`.
 * The mutual recursion `next → argument → formatter → args → arg → next` is fuelled; every edge of
   the recursion consumes at least one character, so `input.length + 1` is always enough
   (`Pattern/ParserLemmas.lean`), and the entry points fix that fuel.
+* `Parser::depth` (how many parenthesised arguments are open; commit c25fac2) is threaded as a
+  parameter `d`: `arg()` restores it on every path, so it is a function of the nesting position.
+  At `d = Profile.maxDepth` (`MAX_DEPTH = 64`) one more `(` swallows the rest of the input and
+  fails with `nesting too deep`.
 -/
 namespace Log4rs.Pattern.Parse
 
@@ -48,6 +52,10 @@ structure Profile where
   character `)` (its own `Text(")")` piece, like the top-level `))`), not the end of the argument.
   `false` = the code before the repair. -/
   doubledCloseParen : Bool := true
+  /-- `MAX_DEPTH` of `parser.rs` (commit c25fac2): how many parenthesised arguments may be open at
+  once; the `(` that would open one more is answered with `Err("nesting too deep")` after the rest
+  of the input has been swallowed. Pinned to the source constant by `C09_gen_max_depth`. -/
+  maxDepth : Nat := 64
   deriving Repr
 
 /-- the current code, 64-bit, overflow checks on (test and harness profile) -/
@@ -90,6 +98,8 @@ def eUnexpectedOpenParen : List Char := cs!"unexpected '('"
 def eUnexpectedCloseParen : List Char := cs!"unexpected ')'"
 def eUnexpectedBackslash : List Char := cs!"unexpected '\\'"
 def eUnclosedParen : List Char := cs!"unclosed '('"
+/-- `Parser::arg` when `self.depth == MAX_DEPTH` -/
+def eNestingTooDeep : List Char := cs!"nesting too deep"
 /-- only with `Profile.widthCheck` (proposed repair of F3) -/
 def eWidthTooLarge : List Char := cs!"width too large"
 
@@ -223,43 +233,53 @@ def doubledClose (P : Profile) (c : Char) (r : List Char) : Option (List Char) :
   if P.doubledCloseParen && c == ')' then doubled ')' r else none
 
 mutual
-/-- `Parser::args`: `while let Some('(') = peek { args.push(self.arg()?) }` -/
-def argsLoop (cc : CharClass) (P : Profile) : Nat → List Char → List (List Piece) → PR (List (List Piece))
-  | 0, _, _ => .fuel
-  | f + 1, s, acc =>
+/-- `Parser::args`: `while let Some('(') = peek { args.push(self.arg()?) }`; `d` is `self.depth`,
+the number of parenthesised arguments open at this point. `Parser::arg` after its `consume('(')`:
+`if self.depth == MAX_DEPTH { for _ in &mut self.it {}; return Err("nesting too deep") }`, otherwise
+the pieces of the argument are read one level deeper (`depth += 1 … depth -= 1` around
+`arg_pieces`, also when that fails: the depth is a function of the position in the nesting). -/
+def argsLoop (cc : CharClass) (P : Profile) : Nat → Nat → List Char → List (List Piece) → PR (List (List Piece))
+  | 0, _, _, _ => .fuel
+  | f + 1, d, s, acc =>
     match s with
     | [] => .ok acc []
     | c :: r =>
       if c = '(' then
-        match argBody cc P f r [] with
-        | .ok a r' => argsLoop cc P f r' (acc ++ [a])
-        | .fail e r' => .fail e r'
-        | .panic w => .panic w
-        | .fuel => .fuel
+        if d = P.maxDepth then .fail eNestingTooDeep []
+        else
+          match argBody cc P f (d + 1) r [] with
+          | .ok a r' => argsLoop cc P f d r' (acc ++ [a])
+          | .fail e r' => .fail e r'
+          | .panic w => .panic w
+          | .fuel => .fuel
       else .ok acc s
-/-- `Parser::arg` after its `consume('(')`: pieces until the closing parenthesis -/
-def argBody (cc : CharClass) (P : Profile) : Nat → List Char → List Piece → PR (List Piece)
-  | 0, _, _ => .fuel
-  | f + 1, s, acc =>
+/-- `Parser::arg_pieces` (at depth `d`, the enclosing `(` counted): pieces until the closing
+parenthesis -/
+def argBody (cc : CharClass) (P : Profile) : Nat → Nat → List Char → List Piece → PR (List Piece)
+  | 0, _, _, _ => .fuel
+  | f + 1, d, s, acc =>
     match s with
     | [] => .fail eUnclosedParen []
     | c :: r =>
       match doubledClose P c r with
-      | some r2 => argBody cc P f r2 (acc ++ [.text [')']])
+      | some r2 => argBody cc P f d r2 (acc ++ [.text [')']])
       | none =>
         if c = ')' then .ok acc r
         else
-          match nextWith cc P (fun x => argsLoop cc P f x []) (c :: r) with
-          | .ok (some p) r' => argBody cc P f r' (acc ++ [p])
+          match nextWith cc P (fun x => argsLoop cc P f d x []) (c :: r) with
+          | .ok (some p) r' => argBody cc P f d r' (acc ++ [p])
           | .ok none r' => .fail eUnclosedParen r'
           | .fail e r' => .fail e r'
           | .panic w => .panic w
           | .fuel => .fuel
 end
 
-/-- `Iterator::next` -/
-def next (cc : CharClass) (P : Profile) (s : List Char) : PR (Option Piece) :=
-  nextWith cc P (fun x => argsLoop cc P s.length x []) s
+/-- `Iterator::next` with `self.depth = d` (inside `d` open parenthesised arguments) -/
+def nextAt (cc : CharClass) (P : Profile) (d : Nat) (s : List Char) : PR (Option Piece) :=
+  nextWith cc P (fun x => argsLoop cc P s.length d x []) s
+
+/-- `Iterator::next` as the top-level loop calls it: no argument open -/
+def next (cc : CharClass) (P : Profile) (s : List Char) : PR (Option Piece) := nextAt cc P 0 s
 
 /-- `Parser::new(pattern).collect()`; `err ()` = out of fuel (impossible: `C11_parse_total`) -/
 def parseLoop (cc : CharClass) (P : Profile) : Nat → List Char → Outcome Unit (List Piece)
